@@ -838,9 +838,29 @@ def replay_chunk(args):
         stats['nontriv'] += 1 if nt else 0
         stats['heavy'] += 1 if heavy else 0
         for key, what, case in f:
-            ent = by_key.setdefault(key, [0, what, case])
+            ent = by_key.setdefault(key, [0, what, {**case, 'vector': rec, 'vector_index': idx + seed}])
             ent[0] += 1
     return stats, by_key
+
+
+def replay_case(case):
+    """re-execute exactly one stored case (./check C06 --replay FILE); returns the findings"""
+    if 'vector' in case:
+        rec, idx = case['vector'], case['vector_index']
+        kind = rec['inp']['kind']
+        f = {'var': check_var, 'means': check_means, 'fixed': check_fixed}[kind](rec, idx, True)[0]
+    elif 'method' in case and 'seed' in case:
+        f = check_eval_fixed(case['seed'])[0]
+    elif 'stack' in case:
+        f = []
+        mv = extract_variances(np.array(case['stack']).reshape(3, 1, 1), False, case['n_rdm'], case['n_pattern'])[0]
+        f.append(('C06/c/bound/float', f'combination {float(mv[0])!r} for {case}', case))
+    elif 'seed' in case:
+        ev, f = record_trace(case['seed'])
+        f = f + [('C06/trace', 'recorded events (validate with Trace_Variances)', {'events': ev})]
+    else:
+        f = []
+    return f
 
 
 def eval_fixed_chunk(seeds):
